@@ -1,8 +1,9 @@
 (* C19 — generated C message scheduler honours periods over every call history.
    Only statements; every proof is `exact <lemma>`. *)
-From Coq Require Import ZArith List Bool.
+From Coq Require Import String ZArith List Bool.
 From FcpV Require Import Sched.Sched Sched.SchedProofs.
 From FcpV Require Import Sched.SchedGenLib Sched.SchedGenProofs.
+From FcpV Require Py.BufferLib Dbc.DbcModel Dbc.DbcLib Dbc.DbcSrcProofs CanC.CWriterLib CanC.CWriterProofs gen.PyCanC.
 Import ListNotations.
 Open Scope Z_scope.
 
@@ -66,6 +67,19 @@ Proof. exact @ideal_frame_is_current. Qed.
 Print Assumptions sched_frame_is_current_value.
 
 (* Non-vacuity: a 3-message device and a history that wraps around 2^32. *)
+(* ---- which messages, with which periods, a device's scheduler is generated for: initialize_can_data and map_messages_to_devices of
+   can_c_writer.py are translated from the source on every run (gen/PyCanC.v).  For every schema, every list of bindings and every
+   device name: the periods of the messages grouped under that device are the periods of the CAN bindings that name it (no device:
+   "global"), in declaration order, -1 for a binding without a period ---- *)
+Theorem source_scheduler_periods_are_the_bindings :
+  forall (S : Type) (create : list Packed.piece -> BufferLib.pyres (S * BinNums.Z)) sc ims d msgs devs,
+    DbcSrcProofs.dres_of (PyCanC.py_initialize_can_data create sc ims) = Some (msgs, devs) ->
+    List.map CWriterLib.c_period (CWriterProofs.get_list d (PyCanC.py_map_messages_to_devices msgs))
+    = List.map (fun im => CWriterLib.impl_int_default im "period"%string (-1)%Z)
+        (List.filter (fun im => andb (CWriterProofs.is_can im) (String.eqb d (CWriterLib.impl_str_default im "device"%string "global"%string))) ims).
+Proof. exact (@CWriterProofs.scheduler_periods_are_the_bindings). Qed.
+Print Assumptions source_scheduler_periods_are_the_bindings.
+
 Example c19_nonvacuous :
   let ps := [15; 20; -1] in
   let h : list (Z * (nat -> Z)) :=
